@@ -1,0 +1,60 @@
+//go:build verif
+
+package ratelimiter
+
+// Contracts for govc (see /verif/DESIGN.md §8 C13). Comment-only file: it adds no code.
+// float64 is idealised as the reals in this package (mode real, assumption A-real).
+
+//@ ghost var lastNow time.Time
+
+// The injectable clock: monotone, and later than the zero time (A-clock).
+//@ func (field)tokenBucket.nowFunc
+//@   trusted
+//@   modifies lastNow
+//@   ensures result >= old(lastNow) && lastNow == result && result > 0
+
+//@ pred inv(tb *tokenBucket) = 0 <= tb.tokens && tb.tokens <= tb.capacity && min(0.5, tb.idealRate) <= tb.refillRate && tb.refillRate <= tb.idealRate && tb.failureCount >= 0 && tb.idealRate > 0
+//@ pred inPenalty(tb *tokenBucket) = lastNow < tb.penaltyUntil
+//@ pred phold(tb *tokenBucket) = inPenalty(tb) ==> tb.tokens < 1
+//@ pred clockOK(tb *tokenBucket) = tb.lastRefill <= lastNow && lastNow >= 0
+//@ pure penaltyNs(k int) int = ite(k <= 1, 5000000000, ite(k == 2, 10000000000, ite(k == 3, 20000000000, 30000000000)))
+//@ pred is429like(s int) = s == 429 || s == 403 || s == 408 || s == 425
+
+//@ func newTokenBucket
+//@   property C13
+//@   mode real
+//@   requires capacity >= 0 && refillRate > 0
+//@   ensures [inv] inv(result) && result.tokens == capacity && result.capacity == capacity && result.idealRate == refillRate && result.refillRate == refillRate && result.failureCount == 0 && result.penaltyUntil == 0
+//@   ensures [fresh] fresh(result)
+
+//@ func (*tokenBucket).refill
+//@   property C13
+//@   mode real
+//@   requires inv(tb) && phold(tb) && clockOK(tb)
+//@   modifies tb.tokens, tb.lastRefill, lastNow
+//@   ensures [inv] inv(tb) && phold(tb) && clockOK(tb) // C13: its token count stays within [0, capacity]
+//@   ensures [penalty-hold] inPenalty(tb) ==> tb.tokens == old(tb.tokens) // C13: no request to that host is released until the penalty has elapsed
+//@   ensures [monotone-clock] lastNow >= old(lastNow)
+
+//@ func (*tokenBucket).adjustOnFailure
+//@   property C13
+//@   mode real
+//@   checks conv
+//@   replay adjustOnFailure
+//@   requires inv(tb) && phold(tb) && clockOK(tb)
+//@   modifies tb.tokens, tb.refillRate, tb.penaltyUntil, tb.failureCount, lastNow
+//@   ensures [inv] inv(tb) && phold(tb) && clockOK(tb) // C13: refill rate never exceeds the configured rate nor falls below the lower of 0.5/s and that rate
+//@   ensures [penalty] is429like(statusCode) ==> tb.tokens == 0 && tb.failureCount == old(tb.failureCount) + 1 && tb.penaltyUntil == lastNow + penaltyNs(tb.failureCount) && tb.refillRate == old(tb.refillRate) // C13: after a 429, 403, 408 or 425 ... a penalty (5 s, doubling with every further failure, capped at 30 s)
+//@   ensures [5xx] !is429like(statusCode) && statusCode >= 500 ==> tb.refillRate <= old(tb.refillRate) && tb.penaltyUntil == old(tb.penaltyUntil) && tb.tokens == 0 // C13: 5xx responses only lower the rate
+//@   ensures [other] !is429like(statusCode) && statusCode < 500 ==> tb.refillRate == old(tb.refillRate) && tb.penaltyUntil == old(tb.penaltyUntil) && tb.tokens == old(tb.tokens) && tb.failureCount == old(tb.failureCount)
+//@   ensures [never-releases] tb.tokens <= old(tb.tokens)
+
+//@ func (*tokenBucket).onSuccess
+//@   property C13
+//@   mode real
+//@   replay onSuccess
+//@   requires inv(tb) && phold(tb) && clockOK(tb)
+//@   modifies tb.refillRate, tb.failureCount, lastNow
+//@   ensures [inv] inv(tb) && phold(tb) && clockOK(tb)
+//@   ensures [raise-only] old(tb.refillRate) <= tb.refillRate && tb.refillRate <= tb.idealRate // C13: successes only raise it back toward, never above, the configured rate
+//@   ensures [no-release] tb.tokens == old(tb.tokens) && tb.penaltyUntil == old(tb.penaltyUntil)
